@@ -489,6 +489,10 @@ class DataFrameSchemaBackend(PandasSchemaBackend):
         # series is relatively slow due to copying the index for
         # each one. Coerce dtypes afterwards instead.
         for c in missing_obj.columns:
+            if missing_cols_schema[c].dtype is None:
+                # a column without a declared data type has nothing to
+                # coerce the filler values to
+                continue
             missing_obj[c] = missing_cols_schema[c].dtype.try_coerce(
                 missing_obj[c]
             )
